@@ -317,6 +317,23 @@ func runMacro() {
 		jobs = append(jobs, jobsFor(sigmaDM, 0, 2, hdr, "\x1e", constLevel(lvStream), "macro"+m+"-half-trailer", 5000)...)
 	}
 	jobs = append(jobs, jobsFor(sigmaDM, 0, 2, "", "\x1e\x04", constLevel(lvStream), "trailer-only", 5000)...)
+	// the trailer characters RS EOT at the end of a text that is NOT a macro (no header), behind runs
+	// that leave the encoder in X12, C40, Text or EDIFACT with zero, one or two codewords of the
+	// symbol free: every run length 3..45 of four run characters x every string of length 0..3 over
+	// {1,2,*,A} x {RS EOT, RS, EOT}; and the same bodies inside a real 05 envelope
+	for _, ch := range []string{"*", "A", "a", "@"} {
+		for n := 3; n <= 45; n++ {
+			if chk.Quick() && ch != "*" && n%3 != 0 {
+				continue
+			}
+			for _, suf := range []string{"\x1e\x04", "\x1e", "\x04"} {
+				jobs = append(jobs, jobsFor([]string{"1", "2", "*", "A"}, 0, 3, strings.Repeat(ch, n), suf, constLevel(lvStream), "trailer-without-header", 5000)...)
+			}
+			if n%3 == 0 {
+				jobs = append(jobs, jobsFor([]string{"1", "2", "*", "A"}, 0, 2, "[)>\x1e05\x1d"+strings.Repeat(ch, n), "\x1e\x04", constLevel(lvStream), "macro05-run-body", 5000)...)
+			}
+		}
+	}
 	// long macro bodies: the nine envelope characters cost ONE codeword, so a digit body of 2k digits
 	// needs 1+k codewords - more characters per codeword than any plain text. Bodies that fill the
 	// largest symbols exactly, one pair less / more, each followed by every string of length 0..1
@@ -326,7 +343,7 @@ func runMacro() {
 			jobs = append(jobs, jobsFor(sigmaDM, 0, 1, hdr+strings.Repeat("42", k), "\x1e\x04", constLevel(lvStream), fmt.Sprintf("macro%s-digits-%d", m, 2*k), 5000)...)
 		}
 	}
-	runJobs("(d) macro 05/06 envelope around every string of length 0..3 over Sigma_DM (all levels), the near-miss envelopes around length 0..2, and long digit bodies (2k digits, k in {1047,1048,1303,1304,1555..1558}: filling 120x120, 132x132 and 144x144 exactly, one pair less and more) followed by every string of length 0..1", jobs)
+	runJobs("(d) macro 05/06 envelope around every string of length 0..3 over Sigma_DM (all levels), the near-miss envelopes around length 0..2, the trailer characters without header behind X12 / C40 / Text / EDIFACT runs of every length 3..45 + every string of length 0..3 over {1,2,*,A}, and long digit bodies (2k digits, k in {1047,1048,1303,1304,1555..1558}: filling 120x120, 132x132 and 144x144 exactly, one pair less and more) followed by every string of length 0..1", jobs)
 }
 
 // ------------------------------------------------------------------ (e) not ISO-8859-1
